@@ -5,6 +5,7 @@
 -/
 import PyGqlModel.Print
 import PyGqlModel.Erase
+import PyGqlModel.Lemmas.PrintStrip
 namespace PyGql.Print
 open PyGql PyGql.Ast
 
@@ -154,5 +155,24 @@ theorem documentEntries_erase (c : Cfg) : ∀ (acc : List Text) (ds : List Defin
 /-- **the printer ignores source positions** -/
 theorem printDocument_erase (c : Cfg) (d : Document) : printDocument c d.erase = printDocument c d := by
   simp [printDocument, Document.erase, documentEntries_erase]
+
+/-! ### dropping member descriptions commutes with erasing positions -/
+
+theorem stripIV_erase (d : InputValueDefinition) : stripIV d.erase = (stripIV d).erase := by
+  simp [stripIV, InputValueDefinition.erase]
+
+theorem stripFD_erase (d : FieldDefinition) : stripFD d.erase = (stripFD d).erase := by
+  simp [stripFD, FieldDefinition.erase, List.map_map, Function.comp_def, stripIV_erase]
+
+theorem stripEV_erase (d : EnumValueDefinition) : stripEV d.erase = (stripEV d).erase := by
+  simp [stripEV, EnumValueDefinition.erase]
+
+theorem stripDef_erase (x : Definition) : stripDef x.erase = (stripDef x).erase := by
+  cases x <;>
+    simp [stripDef, Definition.erase, List.map_map, Function.comp_def, stripFD_erase, stripEV_erase, stripIV_erase]
+
+theorem stripMemberDescriptions_erase (d : Document) :
+    stripMemberDescriptions d.erase = (stripMemberDescriptions d).erase := by
+  simp [stripMemberDescriptions, Document.erase, List.map_map, Function.comp_def, stripDef_erase]
 
 end PyGql.Print
